@@ -1100,7 +1100,7 @@ func TestVerifX02(t *testing.T) {
 		x02Random(t)
 	case "replay":
 		rng := vRand()
-		n, bad := 0, 0
+		n, bad := 0, map[string]int{}
 		for i, raw := range vIn() {
 			var c x02Case
 			if err := json.Unmarshal(raw, &c); err != nil {
@@ -1122,8 +1122,10 @@ func TestVerifX02(t *testing.T) {
 				vEmit(M{"i": i, "ok": true})
 				continue
 			}
-			bad++
-			if bad <= 25 {
+			// at most 25 plain disagreements and 3 per named deviation are reported
+			key := dev
+			bad[key]++
+			if (dev == "" && bad[key] <= 25) || (dev != "" && bad[key] <= 3) {
 				r := M{"i": i, "ok": false, "step": 0, "what": what}
 				if dev != "" {
 					r["dev"] = dev
